@@ -224,6 +224,16 @@ def rule_edge_keys(ctx: Ctx) -> None:
     good = len(adds) == 1 and guard and norm(adds[0].args[0]) == "in_edge[0]" and norm(adds[0].args[1]) == "out_edge[1]" \
         and sorted(rems) == ["in_edge", "out_edge"]
     if good:
+        # the re-joined edge inherits key, reg and reg_type from the edges it replaces (attribute propagation, as in _add)
+        env = {norm(n.targets[0]): norm(n.value) for n in ast.walk(fn) if isinstance(n, ast.Assign) and len(n.targets) == 1}
+        a = adds[0]
+        key = env.get(norm(a.args[2]), norm(a.args[2])) if len(a.args) > 2 else ""
+        good = key in ("in_edge[2]", "out_edge[2]")
+        for kw in ("reg", "reg_type"):
+            v = get_kw(a, kw)
+            r = env.get(norm(v), norm(v)) if v is not None else ""
+            good = good and r in (f"self.dag.edges[in_edge]['{kw}']", f"self.dag.edges[out_edge]['{kw}']")
+    if good:
         ctx.ok("edge.keys", m, adds[0], what="_remove_node re-joins in/out edges of equal key and removes all of them")
     else:
         ctx.fail("edge.keys", m, fn, "_remove_node must re-join (in_edge[0], out_edge[1]) for in/out edges with the same key and remove every "
@@ -262,6 +272,9 @@ KNOCKOUTS = [
     Knockout("edge-keys-wrong-reg", DAG, sub_once("                reg_type = self.dag.edges[edge][\"reg_type\"]\n                reg = self.dag.edges[edge][\"reg\"]", "                reg_type = self.dag.edges[edge][\"reg_type\"]\n                reg = 0"),
              "edge.keys", "_add"),
     Knockout("edge-keys-no-remove", DAG, sub_once("            self._remove_edge(reg_edge)  # remove the edge\n", ""), "edge.keys", "_insert_at"),
+    Knockout("edge-keys-rejoin-reg-from-label", DAG, sub_once('                    reg = self.dag.edges[in_edge]["reg"]\n                    reg_type = self.dag.edges[in_edge]["reg_type"]\n                    label = out_edge[2]',
+                                                              '                    label = out_edge[2]\n                    reg = int(label[1])\n                    reg_type = label[0]'),
+             "edge.keys", "_remove_node"),
     Knockout("edge-keys-rejoin", DAG, sub_once("                        in_edge[0], out_edge[1], label, reg_type=reg_type, reg=reg", "                        in_edge[0], out_edge[0], label, reg_type=reg_type, reg=reg"),
              "edge.keys", "_remove_node"),
     Knockout("F4-sequence-not-topological", DAG, sub_once("for node in nx.topological_sort(self.dag)]", "for node in self.dag.nodes]"), "order.compile", "sequence"),
